@@ -59,7 +59,8 @@ class C10(Prop):
             from pdtable import read_csv
             from .. import tables as T
 
-            txt = "\n".join(";".join(r) for r in case["rows"]) + "\n"
+            # the last line of the input may lack its terminator when the block ends at end of input
+            txt = "\n".join(";".join(r) for r in case["rows"]) + ("" if (case["end"] == "eof" and len(case["rows"]) % 2) else "\n")
             try:
                 with warnings.catch_warnings():
                     warnings.simplefilter("ignore")
